@@ -419,6 +419,7 @@ def load(file, **options):
         if sh.cell(row_num, index['ID']).value != frame_id:
             # new Frame
             frame_id = sh.cell(row_num, index['ID']).value
+            signal_name = ""  # the first signal of a frame is new even if it is named like the previous frame's last one
             frame_name = sh.cell(row_num, index['frameName']).value
             cycle_time = sh.cell(row_num, index['cycle']).value
             launch_type = sh.cell(row_num, index['launchType']).value
